@@ -167,6 +167,34 @@ func runC02(r *Run) {
 	closeAfter := t.Draw(6)
 	r.DrawNetKnobs(vol, rc.Lib.Out())
 	r.S.MaxSteps = 60000
+	// Stall mode (15%): every message is small and goes through a streaming Writer
+	// with a context of its own, the pipe is tiny, and the peer stops reading for
+	// 2.5 s at a drawn step. Control frames then get stuck in the transport holding
+	// the frame lock, and Writer / Write / Close calls give up one by one while they
+	// wait behind them - without the connection being closed. Whatever was emitted
+	// must stay a well-formed prefix of a conformant stream.
+	stall := t.Pct(15)
+	stallAfter := 1 + t.Draw(25)
+	holding := false
+	if stall {
+		for wi, w := range ws {
+			for j := range w.msgs {
+				n := 16 + t.Draw(200)
+				w.msgs[j].Data = Payload{Kind: 3, Len: n, Seed: t.U32()}.Bytes()
+				w.msgs[j].Data[0], w.msgs[j].Data[1] = byte('A'+wi), byte('0'+j)
+				w.msgs[j].API = 1
+				w.msgs[j].Chunk = []int{n / 2, n - n/2}
+			}
+		}
+		if nPing == 0 {
+			nPing = 2
+		}
+		earlyClose = false
+		rc.Lib.Out().Cap = 16
+		rc.Lib.Out().HardCap = true
+		rc.Peer.Hold = func() bool { return holding }
+		r.S.Count("fault.receiver-stall")
+	}
 
 	sig := fmt.Sprintf("cli=%v,deflate=%v,libtake=%v", libIsClient, rc.Neg.Deflate, rc.LibTake)
 	r.Class = fmt.Sprintf("%s/w%d/p%d/early%v", sig, nW, nPing, earlyClose)
@@ -193,7 +221,13 @@ func runC02(r *Run) {
 			defer func() { writersLeft-- }()
 			for i, m := range w.msgs {
 				r.S.Park("a." + w.name)
-				err := writeMsg(r, c, context.Background(), m, w.name)
+				wctx := context.Background()
+				if stall {
+					var cancel context.CancelFunc
+					wctx, cancel = context.WithTimeout(wctx, 1500*time.Millisecond+time.Duration(len(w.name)+i)*173*time.Microsecond)
+					defer cancel()
+				}
+				err := writeMsg(r, c, wctx, m, w.name)
 				if err != nil {
 					w.err = true
 					if !closing {
@@ -221,6 +255,18 @@ func runC02(r *Run) {
 					return
 				}
 			}
+		})
+	}
+	if stall {
+		r.S.Go("staller", func() {
+			for n := 0; n < stallAfter; n++ {
+				r.S.Park("a.staller")
+			}
+			closing = true // from here on calls may legitimately fail
+			holding = true
+			r.S.Sleep(2500 * time.Millisecond)
+			holding = false
+			r.S.Kick()
 		})
 	}
 	reason := strings.Repeat("r", reasonLen)
@@ -270,7 +316,14 @@ func runC02(r *Run) {
 	if len(r.Viol) > 0 {
 		return
 	}
-	if ok, why := matchWriters(msgs, ws); !ok {
+	anyErr := false
+	for _, w := range ws {
+		anyErr = anyErr || w.err
+	}
+	if stall && anyErr {
+		// (a message whose Writer failed half way stays unfinished on the wire and the
+		// writers behind it never get their turn: only conformance is checked)
+	} else if ok, why := matchWriters(msgs, ws); !ok {
 		r.Violate("messages-differ", sig, "messages reconstructed by the reference decoder are not an order-preserving interleaving of what was written: %s", why)
 	}
 	if len(closes) > 0 {
@@ -285,7 +338,9 @@ func runC02(r *Run) {
 		if !sendable {
 			r.S.Count("probe.close-with-unsendable-arguments")
 		}
-	} else if closeErr == nil {
+	} else if closeErr == nil && !(stall && anyErr) {
+		// (with a stall a call's context may have closed the connection before Close
+		// was called; Close then has nothing to send and returns nil)
 		r.Violate("close-missing", sig, "Close returned nil but no Close frame was emitted")
 	}
 	for _, m := range msgs {
